@@ -173,4 +173,17 @@ def check_numeric_hygiene(prog: Program, res: Result, R: str) -> None:
                 res.touch(fi)
                 res.ob(R, mode is None or astq.const_value(mode) == "bilinear", fi.qualname, "patches are cut with bilinear sampling",
                        f"crop_and_resize is called with mode={short(mode, 20) if mode is not None else ''}: refinement patches are no longer bilinear samples of the map", f"{fi.module.relpath}:{c.lineno}")
+    # (squeeze) an argument-less squeeze() drops EVERY unit axis: with exactly one peak / one box / one sample the batch axis
+    # goes too, and the code downstream indexes a tensor of lower rank (IndexError, or a crop of the wrong map)
+    for fi in prog.all_functions():
+        if not (fi.module is pf or (fi.module.name == "sleap_nn.data.instance_cropping" and fi.name == "make_centered_bboxes")):
+            continue
+        for c in walk_function(fi.node):
+            bare = isinstance(c, ast.Call) and ((isinstance(c.func, ast.Attribute) and c.func.attr == "squeeze" and not c.args and not c.keywords and norm(c.func.value) not in ("torch", "np"))
+                                                or (norm(c.func) in ("torch.squeeze", "np.squeeze") and len(c.args) == 1 and not c.keywords))
+            if bare:
+                res.touch(fi)
+                res.ob(R, False, fi.qualname, f"{short(c, 40)} names the axis it removes",
+                       f"`{short(c, 50)}` squeezes without naming an axis: for a batch that happens to contain exactly one element the batch axis is removed as well and the "
+                       "peak path fails (or crops from the wrong map) only for that batch", f"{fi.module.relpath}:{c.lineno}")
     res.ob(R, n >= 2, PF, "conversion sites found", f"only {n} conversion sites found in peak_finding.py", "")
